@@ -46,20 +46,23 @@ struct Dump {
 	sid: i32,
 }
 
-fn read_dump(log: &Path) -> Option<Dump> {
-	let txt = std::fs::read_to_string(log).ok()?;
-	let mut d = Dump { argv: vec![], cwd: vec![], env: vec![], pid: 0, pgid: 0, sid: 0 };
-	let mut started = false;
+fn read_dumps(log: &Path) -> Vec<Dump> {
+	let txt = std::fs::read_to_string(log).unwrap_or_default();
+	let mut out: Vec<Dump> = vec![];
+	let mut cur: Option<Dump> = None;
 	for l in txt.lines() {
 		let f: Vec<&str> = l.splitn(7, ' ').collect();
 		if f.len() < 7 {
 			continue;
 		}
 		let ev = f[6];
+		let pid: i32 = f[1].parse().unwrap_or(0);
+		if cur.as_ref().map_or(true, |c| c.pid != pid) && (ev.starts_with("argv") || ev.starts_with("cwd") || ev.starts_with("env") || ev == "start") {
+			cur = Some(Dump { argv: vec![], cwd: vec![], env: vec![], pid, pgid: 0, sid: 0 });
+		}
+		let Some(d) = cur.as_mut() else { continue };
 		if let Some(a) = ev.strip_prefix("argv ") {
 			d.argv = a.split(',').map(unhex).collect();
-		} else if ev == "argv" {
-			d.argv = vec![];
 		} else if let Some(c) = ev.strip_prefix("cwd ") {
 			d.cwd = unhex(c);
 		} else if let Some(e) = ev.strip_prefix("env ") {
@@ -69,13 +72,12 @@ fn read_dump(log: &Path) -> Option<Dump> {
 				.map(|(k, v)| (String::from_utf8_lossy(&unhex(k)).to_string(), String::from_utf8_lossy(&unhex(v)).to_string()))
 				.collect();
 		} else if ev == "start" {
-			started = true;
-			d.pid = f[1].parse().ok()?;
-			d.pgid = f[3].parse().ok()?;
-			d.sid = f[4].parse().ok()?;
+			d.pgid = f[3].parse().unwrap_or(0);
+			d.sid = f[4].parse().unwrap_or(0);
+			out.push(cur.take().unwrap());
 		}
 	}
-	started.then_some(d)
+	out
 }
 
 pub fn run_one(args: &ShardArgs, rng: &mut Rng, rep: &mut Report, k: usize) {
@@ -118,6 +120,14 @@ pub fn run_one(args: &ShardArgs, rng: &mut Rng, rep: &mut Report, k: usize) {
 	};
 	let command = Arc::new(Command { program, options: SpawnOptions { grouped: wrap == 1, session: wrap == 2, ..Default::default() } });
 
+	// every path that spawns must honour the configuration and the hook: 0 = start only, 1 = restart,
+	// 2 = try_restart, 3 = try_restart_with_signal (old process exits in the grace period), 4 = same, forced at expiry
+	let respawn = if k % 3 == 2 { 1 + rng.usize(4) } else { 0 };
+	let child_opts = match respawn {
+		0 => "--dump --exit-after 5 --no-overlap-probe",
+		4 => "--dump --exit-after 1500 --ignore --no-overlap-probe",
+		_ => "--dump --exit-after 1500 --on-signal any:0 --no-overlap-probe",
+	};
 	let rt = tokio::runtime::Builder::new_multi_thread().worker_threads(2).enable_all().build().expect("runtime");
 	let log2 = log.clone();
 	let wd = workdir.clone();
@@ -128,7 +138,7 @@ pub fn run_one(args: &ShardArgs, rng: &mut Rng, rep: &mut Report, k: usize) {
 		let log3 = log2.clone();
 		job.set_spawn_hook(move |cmd, _| {
 			let c = cmd.command_mut();
-			c.env("VCHILD_LOG", &log3).env("VCHILD_TAG", "c18").env("VCHILD_OPTS", "--dump --exit-after 5 --no-overlap-probe");
+			c.env("VCHILD_LOG", &log3).env("VCHILD_TAG", "c18").env("VCHILD_OPTS", child_opts);
 			if hook_env {
 				c.env("VERIF_HOOK_VALUE", &marker2);
 			}
@@ -137,7 +147,30 @@ pub fn run_one(args: &ShardArgs, rng: &mut Rng, rep: &mut Report, k: usize) {
 			}
 		});
 		job.start().await;
-		tokio::time::timeout(Duration::from_secs(10), job.to_wait()).await.ok();
+		if respawn == 0 {
+			tokio::time::timeout(Duration::from_secs(10), job.to_wait()).await.ok();
+		} else {
+			let starts = |p: &Path| read_dumps(p).len();
+			let t0 = std::time::Instant::now();
+			while starts(&log2) < 1 && t0.elapsed() < Duration::from_secs(5) {
+				tokio::time::sleep(Duration::from_millis(2)).await;
+			}
+			match respawn {
+				1 => {
+					job.restart();
+				}
+				2 => {
+					job.try_restart();
+				}
+				_ => {
+					job.try_restart_with_signal(watchexec_signals::Signal::Terminate, Duration::from_millis(60));
+				}
+			}
+			let t1 = std::time::Instant::now();
+			while starts(&log2) < 2 && t1.elapsed() < Duration::from_secs(5) {
+				tokio::time::sleep(Duration::from_millis(2)).await;
+			}
+		}
 		job.delete_now().await;
 		tokio::time::timeout(Duration::from_secs(5), task).await.ok();
 	});
@@ -154,10 +187,22 @@ pub fn run_one(args: &ShardArgs, rng: &mut Rng, rep: &mut Report, k: usize) {
 	}
 	rep.count("arguments_compared", expected_argv.len() as u64);
 	let show = |v: &[Vec<u8>]| v.iter().map(|a| String::from_utf8_lossy(a).to_string()).collect::<Vec<_>>();
-	let Some(d) = read_dump(&log) else {
-		rep.violation("C18/child-did-not-run", "the spawned helper never wrote its start line", json!({"expected_argv": show(&expected_argv)}));
+	let dumps = read_dumps(&log);
+	let want_spawns = if respawn == 0 { 1 } else { 2 };
+	rep.count("spawn_paths_exercised", 1);
+	if respawn > 0 {
+		rep.count(["", "respawn_via_restart", "respawn_via_try_restart", "respawn_via_graceful_continuation", "respawn_via_grace_expiry"][respawn], 1);
+	}
+	if dumps.len() < want_spawns {
+		rep.violation(
+			&format!("C18/child-did-not-run/spawn{}", dumps.len() + 1),
+			&format!("{} of {want_spawns} expected processes wrote a start line (respawn path {respawn})", dumps.len()),
+			json!({"expected_argv": show(&expected_argv)}),
+		);
 		return;
-	};
+	}
+	for (di, d) in dumps.iter().enumerate() {
+	let path_name = if di == 0 { "start" } else { ["", "restart", "try_restart", "graceful-continuation", "grace-expiry"][respawn] };
 	let wit = || json!({"shell_mode": shell_mode, "wrap": (["plain", "grouped", "session"][wrap as usize]), "expected_argv": show(&expected_argv), "observed_argv": show(&d.argv)});
 	if d.argv != expected_argv {
 		let class = if d.argv.len() != expected_argv.len() { "count" } else { "content" };
@@ -187,16 +232,17 @@ pub fn run_one(args: &ShardArgs, rng: &mut Rng, rep: &mut Report, k: usize) {
 	}
 	let got_env = d.env.iter().find(|(k, _)| k == "VERIF_HOOK_VALUE").map(|(_, v)| v.clone());
 	if hook_env && got_env.as_deref() != Some(marker.as_str()) {
-		rep.violation("C18/hook/env-not-visible", &format!("spawn hook set VERIF_HOOK_VALUE={marker:?}, child saw {got_env:?}"), wit());
+		rep.violation(&format!("C18/hook/env-not-visible/{path_name}"), &format!("spawn hook set VERIF_HOOK_VALUE={marker:?}, the process spawned by {path_name} saw {got_env:?}"), wit());
 	}
 	if !hook_env && got_env.is_some() {
 		rep.violation("C18/hook/stale-env", "child saw a hook environment variable that this spawn's hook did not set", wit());
 	}
 	if hook_cwd && d.cwd != workdir.display().to_string().into_bytes() {
-		rep.violation("C18/hook/cwd-not-visible", &format!("spawn hook set the working directory to {workdir:?}, child ran in {:?}", String::from_utf8_lossy(&d.cwd)), wit());
+		rep.violation(&format!("C18/hook/cwd-not-visible/{path_name}"), &format!("spawn hook set the working directory to {workdir:?}, the process spawned by {path_name} ran in {:?}", String::from_utf8_lossy(&d.cwd)), wit());
 	}
-	if k < 2 {
+	if k < 2 && di == 0 {
 		rep.sample(wit());
+	}
 	}
 	std::fs::remove_file(&log).ok();
 }
